@@ -2,6 +2,14 @@
 # C19: (1) thread part under loom (workspace B, hook H1), (2) sequential-history search (workspace A).
 # The sequential binary writes the evidence and embeds the thread part's coverage.
 set -u
+cleanup_scratch() {
+  # scratch directories of workers that were killed (only those whose owning process is gone)
+  for d in /dev/shm/verif-*-[0-9]*; do
+    [ -d "$d" ] || continue
+    pid="${d##*-}"
+    [ -d "/proc/$pid" ] || rm -rf "$d"
+  done
+}
 TIER="$1"; shift
 cd /verif
 export CARGO_NET_OFFLINE=true
@@ -21,7 +29,7 @@ fi
 rm -f /verif/.target/c19-threads-evidence.json
 VERIF_EVIDENCE_PATH=/verif/.target/c19-threads-evidence.json VERIF_REPLAY_TAG=threads "$ST"/release/c19t --tier "$TIER"; rc1=$?
 VERIF_MERGE_EVIDENCE="threads_under_loom=/verif/.target/c19-threads-evidence.json" "$AT"/release/c19 --tier "$TIER"; rc2=$?
-rm -rf /dev/shm/verif-c19*-* 2>/dev/null
+cleanup_scratch
 if [ $rc1 -eq 2 ] || [ $rc2 -eq 2 ]; then exit 2; fi
 if [ $rc1 -eq 1 ] || [ $rc2 -eq 1 ]; then exit 1; fi
 exit 0
